@@ -10,7 +10,7 @@ miss=0
 for id in $ids; do
   ( cd $wt && git apply /verif/seeded/$id/patch.diff ) || { echo "seed=$id patch does not apply"; miss=$((miss+1)); continue; }
   s=$(date +%s)
-  out=$(VERIF_REPO_DIR=$wt VERIF_REPLAY_ROOT=$rr /verif/bin/gosym check $id --tier quick --no-evidence 2>&1); rc=$?
+  out=$(VERIF_REPO_DIR=$wt VERIF_REPLAY_ROOT=$rr /verif/bin/gosym check ${id:0:3} --tier quick --no-evidence 2>&1); rc=$?
   e=$(date +%s)
   v=$(echo "$out" | grep -c '^VIOLATION')
   echo "seed=$id rc=$rc violations=$v $((e-s))s $(echo "$out" | grep -m1 counterexample | sed 's/.*msg=\("[^"]*"\).*/\1/' | cut -c1-140)"
